@@ -297,4 +297,21 @@ CHECKS = {
             job("schema", "c10", ["TestC10Schema"], 700, 12000, 4, 14),
         ],
     },
+    "C08": {
+        "level": "exploration",
+        "manifest": {
+            "technique": "stateful property-based testing (generated operation histories, replayable as one value): a real SQLite connection commits generated write transactions (DML, bulk growth past the size at open and past the 100-page cache, CREATE/DROP TABLE and INDEX, ALTER, VACUUM, incremental vacuum) between generated reads on one long-lived high-level handle and one long-lived low-level handle with explicit RLock/RUnlock; every read is compared with SQLite's answer at that moment and repeated reads must be identical",
+            "level_text": "Generated histories (read | committed write)* of 2-24 steps, oracle = SQLite on the same connection that wrote (so always the latest committed state), for Select, IndexedSelect, SelectRowid, PKSelect, Columns and low-level Tables/Indexes/Schema/Table.Scan. Sampled.",
+            "level_note": "The writer commits each statement (autocommit) and holds no lock during reads; lock interaction is C06/C07. Table shapes are fixed simple ones (rowid alias, plain, WITHOUT ROWID) so that sqlittle accepts every definition.",
+        },
+        "rule": ("history of 2-24 operations, half reads half writes, on databases with page size 512/1024/4096 and auto_vacuum 0/1/2. Non-trivial = the history contains a read by a handle that had read before and had not yet "
+                 "seen an intervening commit (classes: after dml / ddl / growth / shrink / vacuum). Distinct = fingerprint of the spec."),
+        "assumptions": ["system libsqlite3 (3.40.1) is writer and reference"],
+        "min_nontrivial": {"quick": 150, "thorough": 3000},
+        "required_classes": ["read-after:dml", "read-after:ddl", "read-after:growth", "read-after:vacuum", "file-grew", "more-than-100-pages"],
+        "timeout": {"quick": 400, "thorough": 2400},
+        "jobs": [
+            job("history", "c08", ["TestC08History"], 130, 2500, 4, 12),
+        ],
+    },
 }
